@@ -891,3 +891,136 @@ Proof.
     eapply rres_evolves; [eapply evolves_trans; [apply evolves_log|exact E2]|]. apply end_sim. exact R2.
   - cbn [rbind]. apply end_sim. exact R1b.
 Qed.
+
+Lemma sim_loop : forall f, Sim f -> forall wf ev cur cur' w hw lp, Rep w hw lp -> crel w hw lp cur cur' ->
+  rres w hw lp (exec fixed env (S f) (KLoop wf ev cur) w) (hexec env (S f) (HLoop wf ev cur') hw).
+Proof.
+  intros f IH wf ev cur cur' w hw lp R C. cbn [exec hexec].
+  destruct cur as [d|], cur' as [a|]; cbn [crel] in C; try contradiction.
+  2:{ cbn [rres]. split; [reflexivity|]. exists lp. split; [exact R|apply evolves_refl]. }
+  destruct C as [(b & Hin & Ed)|(Hd & Ha & _)].
+  2:{ rewrite (rp_list _ _ _ R), (find_node_none _ _ Hd). unfold rd. rewrite Ha. exact I. }
+  subst d. destruct (chain_at _ _ _ (rp_chain _ _ _ R) a b (rp_names _ _ _ R) Hin) as (lp2 & nx & Hf & Hc2 & Hfn & Hnx & Enx & Hsub).
+  rewrite (rp_list _ _ _ R), Hfn. unfold rd at 1. rewrite Hf. cbn [rbind cell_of c_ev c_fn c_data c_flags c_next].
+  destruct (b_ev b =? ev).
+  - (* the handler of this node is invoked *)
+    unfold visit. cbn [oneshot_whilefalse oneshot_reentrant fixed]. rewrite !andb_false_r. cbn [negb]. rewrite andb_true_r.
+    (* the two worlds just before the call *)
+    assert (Hpre : exists wc hwc lpc fl,
+      (let '(s1, flags) := (if has (b_flags b) BIND_ONESHOT
+                            then (mkS (update_node (b_data b) tombstone (first (ws w))) (is_iter (ws w)) true, EV_FIRE + EV_UNBIND)
+                            else (ws w, EV_FIRE)) in (set_state s1 w, flags)) = (wc, fl) /\
+      (if has (b_flags b) BIND_ONESHOT
+       then rbind (wr (hs hw) a (ctomb (cell_of b nx))) (fun h1 => Ok (set_del h1 true, EV_FIRE + EV_UNBIND))
+       else Ok (hs hw, EV_FIRE)) = Ok (hs hwc, fl) /\ hn hwc = hn hw /\ ht hwc = ht hw /\
+      Rep wc hwc lpc /\ Evolves w hw lp wc hwc lpc /\ (exists b', In (a, b') lpc /\ b_data b' = b_data b)).
+    { destruct (has (b_flags b) BIND_ONESHOT).
+      - destruct (rep_tomb w hw lp a b R Hin) as (nx' & Hf' & Hwr & R1 & E1). cbn zeta in Hwr, R1, E1.
+        assert (nx' = nx) by (rewrite Hf in Hf'; inversion Hf'; reflexivity). subst nx'.
+        eexists _, (hset (set_del _ true) hw), _, _. split; [reflexivity|]. rewrite Hwr. cbn [rbind].
+        split; [reflexivity|]. split; [reflexivity|]. split; [reflexivity|]. split; [exact R1|]. split; [exact E1|].
+        exists (tombstone b). split; [|reflexivity]. unfold upd_node. apply in_map_iff. exists (a, b). cbn. rewrite Pos.eqb_refl. auto.
+      - eexists _, (hset (hs hw) hw), lp, _. split; [reflexivity|]. split; [reflexivity|]. split; [reflexivity|]. split; [reflexivity|].
+        split; [apply rep_eta; exact R|]. split; [apply evolves_same; reflexivity|]. eauto. }
+    destruct Hpre as (wc & hwc & lpc & fl & Hk & Hh & Hnc & Htc & Rc & Ec & (b' & Hinc & Edc)).
+    match goal with |- rres _ _ _ (let '(s1, flags) := ?X in _) _ =>
+      assert (Hx : (let '(s1, flags) := X in (set_state s1 w, flags)) = (wc, fl)) by exact Hk; destruct X as [s1 fl0] end.
+    inversion Hx; subst wc fl0. clear Hx Hk. rewrite Hh. cbn [rbind].
+    assert (Ehw : hlog (TCallB (b_data b) fl) (hset (hs hwc) hw) = hlog (TCallB (b_data b) fl) hwc).
+    { unfold hlog, hset. cbn. rewrite Hnc, Htc. reflexivity. }
+    rewrite Ehw.
+    pose proof (IH (KCall (b_fn b) (b_data b) fl) (HCall (b_fn b) (b_data b) fl) _ _ _
+                   (rep_log _ _ _ (TCallB (b_data b) fl) Rc) (conj eq_refl (conj eq_refl eq_refl))) as H.
+    use_ih H. destruct H as [Ev (lp1 & R1 & E1)]. subst v2'.
+    assert (E01 : Evolves w hw lp w2 hw2 lp1).
+    { eapply evolves_trans; [exact Ec|]. eapply evolves_trans; [apply evolves_log|exact E1]. }
+    destruct (wf && negb (v2 =? 0)).
+    + cbn [rres]. split; [reflexivity|]. exists lp1. split; [exact R1|exact E01].
+    + eapply rres_evolves; [exact E01|].
+      assert (C1 : crel w2 hw2 lp1 (Some (b_data b)) (Some a)).
+      { eapply crel_evolves; [exact R|exact R1|exact E01|]. cbn. left. eauto. }
+      cbn [crel] in C1. destruct C1 as [(b1 & Hin1 & Ed1)|(Hd1 & Ha1 & _)].
+      * destruct (chain_at _ _ _ (rp_chain _ _ _ R1) a b1 (rp_names _ _ _ R1) Hin1) as (lp3 & nx1 & Hf1 & _ & _ & Hnx1 & Enx1 & Hsub1).
+        rewrite Ed1 in Hnx1. rewrite (rp_list _ _ _ R1), Hnx1. unfold rd. rewrite Hf1. cbn [rbind cell_of c_next].
+        apply IH; [exact R1|]. split; [reflexivity|]. split; [reflexivity|]. rewrite Enx1. apply crel_next. exact Hsub1.
+      * rewrite (rp_list _ _ _ R1), (next_of_none _ _ Hd1). unfold rd. rewrite Ha1. exact I.
+  - (* not for this event: on to the next node *)
+    rewrite Hnx. apply IH; [exact R|]. split; [reflexivity|]. split; [reflexivity|]. rewrite Enx. apply crel_next. exact Hsub.
+Qed.
+
+Lemma sim_destroy : forall f, Sim f -> forall w hw lp, Rep w hw lp ->
+  rres w hw lp (exec fixed env (S f) KDestroy w) (hexec env (S f) HDestroy hw).
+Proof.
+  intros f IH w hw lp R. cbn [exec hexec].
+  destruct (snoc_cases _ lp) as [->|(lp0 & [a b] & ->)].
+  - rewrite (rp_list _ _ _ R). pose proof (rp_chain _ _ _ R) as Hc. inversion Hc as [Hk|]. cbn [binds map].
+    cbn [rres]. split; [reflexivity|]. exists []. split; [exact R|apply evolves_refl].
+  - destruct (rep_destroy_step w hw lp0 a b (mkB 0 0 0 None 0) R) as (Hlast & h1 & h2 & Hls & Hrs & Hws & Hrd & Hfr & R0 & E0).
+    assert (Hne : exists x l, first (ws w) = x :: l).
+    { rewrite (rp_list _ _ _ R), binds_snoc. destruct (binds lp0); cbn; eauto. }
+    destruct Hne as (x & l & El). rewrite El. rewrite <- El. rewrite Hlast.
+    assert (Hk : exists a0, hfirst (hs hw) = Some a0).
+    { pose proof (rp_chain _ _ _ R) as Hc. destruct lp0; inversion Hc; eauto. }
+    destruct Hk as (a0 & Ea0). rewrite Ea0.
+    rewrite Hls. cbn [rbind]. rewrite Hrs. cbn [rbind]. rewrite Hws. cbn [rbind]. rewrite Hrd.
+    cbn [rbind cell_of c_fn c_data c_ev c_flags]. rewrite Hfr. cbn [rbind].
+    set (w0 := set_state (mkS (removelast (first (ws w))) (is_iter (ws w)) (needs_del (ws w))) w) in *.
+    eapply rres_evolves; [exact E0|].
+    destruct ((b_ev b =? 0) || has (b_flags b) (BIND_UNBIND + BIND_DESTROY)).
+    + pose proof (IH (KCall (b_fn b) (b_data b) (EV_UNBIND + EV_DESTROY)) (HCall (b_fn b) (b_data b) (EV_UNBIND + EV_DESTROY)) _ _ _
+                     (rep_log _ _ _ (TCallB (b_data b) (EV_UNBIND + EV_DESTROY)) R0) (conj eq_refl (conj eq_refl eq_refl))) as H.
+      use_ih H. destruct H as [_ (lp1 & R1 & E1)].
+      eapply rres_evolves; [eapply evolves_trans; [apply evolves_log|exact E1]|]. apply IH; [exact R1|exact I].
+    + cbn [rbind]. apply IH; [exact R0|exact I].
+Qed.
+
+Theorem sim_all : forall fuel, Sim fuel.
+Proof.
+  induction fuel as [|f IH]; intros t t' w hw lp R T.
+  - destruct t, t'; cbn in T; try contradiction; exact I.
+  - destruct t as [fn n fl|acts|a|wf ev cur|], t' as [fn' n' fl'|acts'|a'|wf' ev' cur'|]; cbn [trel] in T; try contradiction.
+    + destruct T as (-> & -> & ->). apply sim_call; assumption.
+    + subst acts'. apply sim_acts; assumption.
+    + subst a'. destruct a as [ev flags hid|id|ev|ev|].
+      * apply sim_bind; assumption.
+      * apply sim_unbind; assumption.
+      * apply (sim_emit f IH false); assumption.
+      * apply (sim_emit f IH true); assumption.
+      * apply sim_destroy_act; assumption.
+    + destruct T as (-> & -> & C). apply sim_loop; assumption.
+    + apply sim_destroy; assumption.
+Qed.
+
+End Sim.
+
+(* ---- the statements ---- *)
+(* histories run in lockstep on the two models: same result kind with the same fuel, same value, same
+   trace, and the heap holds exactly the cells of the list's nodes *)
+Theorem twin_simulates : forall env fuel ops,
+  match run fixed env fuel ops, hrun env fuel ops with
+  | Ok (w, v), Ok (hw, v') => v = v' /\ wt w = ht hw /\ wn w = hn hw /\ exists lp, Rep w hw lp
+  | Fault, Fault => True
+  | OutOfFuel, OutOfFuel => True
+  | _, _ => False
+  end.
+Proof.
+  intros env fuel ops. unfold run, hrun.
+  pose proof (sim_all env fuel (KActs ops) (HActs ops) init_world init_hworld [] rep_init eq_refl) as H.
+  destruct (exec fixed env fuel (KActs ops) init_world) as [[w v]| |], (hexec env fuel (HActs ops) init_hworld) as [[hw v']| |];
+    cbn [rres] in H; try contradiction; auto.
+  destruct H as [Hv (lp & R & _)]. split; [exact Hv|]. split; [symmetry; exact (rp_t _ _ _ R)|].
+  split; [symmetry; exact (rp_n _ _ _ R)|]. exists lp. exact R.
+Qed.
+
+(* nothing but the nodes of the list is allocated; in particular nothing once the list is empty *)
+Theorem twin_no_leak : forall w hw lp, Rep w hw lp ->
+  (forall a, BM.find a (cells (hs hw)) <> None <-> In a (addrs lp)) /\
+  (first (ws w) = [] -> bheap_empty (hs hw) = true).
+Proof.
+  intros w hw lp R. split.
+  - intro a. split; [apply (rp_exact _ _ _ R)|]. intro Hin. eapply hchain_live; [exact (rp_chain _ _ _ R)|exact Hin].
+  - intro He. unfold bheap_empty. apply BM.is_empty_1. intros a c Hm.
+    assert (Hin : In a (addrs lp)).
+    { apply (rp_exact _ _ _ R). apply BM.find_1 in Hm. congruence. }
+    rewrite (rp_list _ _ _ R) in He. destruct lp; [destruct Hin|discriminate].
+Qed.
